@@ -8,6 +8,8 @@ package simrt
 import (
 	"cmp"
 	"slices"
+
+	"verif/simrt/hook"
 )
 
 var mapSeed uint64 // 0 = native (random) map iteration order
@@ -38,4 +40,9 @@ func Keys[K cmp.Ordered, V any](m map[K]V) []K {
 		keys[i], keys[j] = keys[j], keys[i]
 	}
 	return keys
+}
+
+func init() {
+	hook.LockFn, hook.RLockFn, hook.UnlockFn, hook.RUnlockFn = Lock, RLock, Unlock, RUnlock
+	hook.OnceDoFn, hook.CondWaitFn, hook.CondSignalFn, hook.CondBroadcastFn = OnceDo, CondWait, CondSignal, CondBroadcast
 }
